@@ -190,6 +190,32 @@ for k, t in R9TXT.items():
     lv, eng, tech, text, note = checks[k]
     checks[k] = (lv, eng, tech, text + t, note)
 
+R10TXT = {
+ "C01": " Tenth round: the other direction's registration of the same proprietary CID (before / after, another size); received FOpts and FRMPayload as windows into one buffer plus an added FOpts item (a forwarder that does not copy).",
+ "C02": " Tenth round: frames decoded and then changed (FOpts of another length, FCtrl copied into a new frame) - the MIC is the specification MIC of the emitted frame; frames whose correct MIC is 00000000 / ffffffff (searched witnesses).",
+ "C03": " Tenth round: FPort 223 / 224 / 225; FRMPayload items of the caller's own Payload type.",
+ "C04": " Tenth round: join-request and join-accept witnesses whose correct MIC is 00000000 / ffffffff.",
+ "C05": " Tenth round: sender and receiver key sets over {K1, K2, all-zero}^2 each; an exchange whose frame carries the MIC 00000000 / ffffffff.",
+ "C06": " Tenth round: CFList decoded into a used receiver; registration changed g = 2^k-1, 2^k, 2^k+1 times between two decodes (k <= 17 / 20).",
+ "C07": " Tenth round: registration change gaps as in C06; E3: two overlapping registrations of different CIDs next to a decoder (both present afterwards).",
+ "C08": " Tenth round: proprietary frames in the lengths of a join-request and of both rejoin-requests in the reused-receiver histories.",
+ "C09": " Tenth round: a Go runtime fatal error (concurrent map access) under the parallel enumeration is a violation in its own right here and in C10.",
+ "C10": " Tenth round: FOpts / FRMPayload given as the front part of a longer list (spare capacity) through seven operations; E3: two overlapping registrations.",
+ "C12": " Tenth round: the 128 s beacon period boundary -1 ns / 0 / +1 ns at ten period numbers up to 7.2e7.",
+ "C13": " Tenth round: 46 unknown version strings on the seam between the two arguments (known version + known revision, empty, the word latest).",
+ "C14": " Tenth round: every configuration (repeater x dwell-time) x custom channels of five DR-range kinds x enable patterns x all device subsets.",
+ "C15": " Tenth round: lookups for the 32 single-bit neighbours of the first and last channel frequency.",
+ "C16": " Tenth round: a wrong MIC together with a second defect (malformed CFList, RxDelay 16, JoinNonce 2^24); join-requests whose correct MIC is 00000000 / ffffffff.",
+ "C17": " Tenth round: blobs wrapped under the same KEK with 37 other initial values (RFC 5649's for every length, all-zero, all-one, single-bit neighbours) are refused; the whole check again under three process time zones.",
+ "C18": " Tenth round: 32-bit (GPS time) fields also over the seconds around the 18 leap seconds.",
+ "C20": " Tenth round: the whole check again in child processes under TZ=Asia/Tokyo, America/Los_Angeles, Pacific/Kiritimati.",
+}
+for k, t in R10TXT.items():
+    lv, eng, tech, text, note = checks[k]
+    checks[k] = (lv, eng, tech, text + t, note)
+lv, eng, tech, text, note = checks["C07"]
+checks["C07"] = (lv, eng, tech + "; " + E3, text, note)
+
 def load_extra():
     p = os.path.join(V, "bin", "manifest_table.json")
     if os.path.exists(p):
